@@ -16,7 +16,7 @@ fn strategy() -> BoxedStrategy<FaultCase> {
         3 => (any::<u16>(), 0u8..5).prop_map(|(p, k)| Mutation::HugeLength(p, k)),
     ];
     let fault = (0u8..24, prop_oneof![2 => Just(Target::Event), 4 => any::<u16>().prop_map(Target::Response), 1 => any::<u16>().prop_map(Target::Stray)], mutation).prop_map(|(at, target, mutation)| Fault { at, target, mutation });
-    let cfg = GenCfg { abortable: false, task_aborts: false, max_acts: 24, scale: false, ..GenCfg::standard() };
+    let cfg = GenCfg { abortable: false, task_aborts: false, mixed: 0, max_acts: 24, scale: false, ..GenCfg::standard() };
     (universe(cfg), any::<bool>(), prop::collection::vec(fault, 1..8)).prop_map(|(universe, json, faults)| FaultCase { universe, json, faults }).boxed()
 }
 
